@@ -176,7 +176,16 @@ func init() {
 			defer e.Close()
 			var hits []string
 			passthrough := true
+			// the routing table is loaded (the slots spread evenly over the nodes): what SCAN does must not depend on it
+			var nodesText strings.Builder
+			for i, h := range hosts {
+				lo, hi := i*16384/len(hosts), (i+1)*16384/len(hosts)-1
+				fmt.Fprintf(&nodesText, "%040d %s@1%d master - 0 0 %d connected %d-%d\n", i+1, h, i, i+1, lo, hi)
+			}
 			e.SetAnswer(func(addr string, body *redis.RespValue) *redis.RespValue {
+				if lowerASCII(body.Array[0].Text) == "cluster" {
+					return &redis.RespValue{Type: redis.BulkString, Text: []byte(nodesText.String())}
+				}
 				i := idxOf[addr]
 				c, _ := strconv.ParseUint(string(body.Array[1].Text), 10, 64)
 				hits = append(hits, fmt.Sprintf("%d:%d", i, c))
@@ -200,10 +209,15 @@ func init() {
 				}
 				return arr(bulk("0"), *arr())
 			})
+			slotsLoaded := e.LoadSlots() == nil && e.SlotOwner(0) == hosts[0]
+			e.Sent()
 			cursor := "0"
 			var keys []string
 			steps := 0
 			status := "done"
+			if !slotsLoaded {
+				status = "SLOTS-NOT-LOADED"
+			}
 			for {
 				vs := []redis.RespValue{bulk("scan"), bulk(cursor)}
 				for _, x := range extra {
